@@ -281,6 +281,29 @@ func cmdDriveCosmetic(args []string) error {
 	if len(domains) == 0 {
 		return fmt.Errorf("the bundled lists contain no domain-specific cosmetic rules")
 	}
+	// lines longer than the 4 KiB read buffer, in the middle of each list: a rule for 400 domains, its exception for a
+	// few of them, and an over-long comment; what follows them must still be found where it is
+	{
+		var wide []string
+		for i := 0; i < 400; i++ {
+			wide = append(wide, fmt.Sprintf("wide%03d.example", i))
+		}
+		long := []string{strings.Join(wide, ",") + "##.wide-banner", "! " + strings.Repeat("long comment ", 400),
+			strings.Join(wide[100:380], ",") + "#@#.wide-banner", "wide001.example,~sub.wide001.example##.after-long-lines"}
+		for _, l := range long {
+			if r, err := rules.NewRule(l, 1); err == nil {
+				if cr, ok := r.(*rules.CosmeticRule); ok && cr != nil {
+					cos = append(cos, cr)
+				}
+			}
+		}
+		mid := len(texts) / 4
+		texts = append(texts[:mid], append(append([]string{}, long...), texts[mid:]...)...)
+		mid = 3 * len(texts) / 4
+		texts = append(texts[:mid], append([]string{long[1]}, texts[mid:]...)...)
+		domains = append(domains, "wide000.example", "wide001.example", "wide099.example", "wide100.example", "wide250.example", "wide399.example",
+			"wide001.example", "wide380.example")
+	}
 	st, err := buildStorage([][]string{texts[:len(texts)/2], texts[len(texts)/2:]})
 	if err != nil {
 		return err
@@ -302,7 +325,14 @@ func cmdDriveCosmetic(args []string) error {
 				host = d[k+1:]
 			}
 		}
+		if forced := []string{"wide000.example", "wide001.example", "sub.wide001.example", "wide099.example", "www.wide100.example", "wide250.example",
+			"wide380.example", "wide399.example"}; i < len(forced) {
+			host = forced[i]
+		}
 		flags := rnd.Intn(4)
+		if i < 8 {
+			flags = 0
+		}
 		ev := cosEvent{Host: host, CSS: flags&1 == 0, GCSS: flags&2 == 0, Applicable: []cosApplicable{}, Generic: []string{}, Specific: []string{}}
 		for _, cr := range cos {
 			if cr.Match(host) {
